@@ -2627,5 +2627,145 @@ theorem march_weld_volume_positive {W : Type} [DecidableEq W] (s : Pt → Bool) 
 /-- non-vacuity: one inside sample in a 2×2×2 box, every vertex at the middle of its edge — the surface is not empty -/
 example : boxTris (fun q => decide (q = ((-1 : Int), (-1 : Int), (-1 : Int)))) (-2, -2, -2) 2 2 2 ≠ [] := by decide
 
+/-! ## 15. The volume theorems for exactly the cells the real marcher visits -/
+
+/-- what `marchFloat1BlockPosition` emits for one cell of block `b`, as triangles in lattice-edge ids -/
+def cellEmitTris {α : Type} (bl : Blocks α) (val : α → Bool) (b : Pt) (l : Int × Int × Int) : List (LEdge × LEdge × LEdge) :=
+  match fetchCell bl b l.1 l.2.1 l.2.2 with
+  | none => []
+  | some cs => (caseTris (caseIndex (cs.map val))).map fun t =>
+      (shiftL (globalOf b l.1 l.2.1 l.2.2) (edgeRel t.1), shiftL (globalOf b l.1 l.2.1 l.2.2) (edgeRel t.2.1),
+       shiftL (globalOf b l.1 l.2.1 l.2.2) (edgeRel t.2.2))
+
+/-- `marchFloat1`: the triangle list over all allocated blocks (any order) and all their cells -/
+def marchedTris {α : Type} (bl : Blocks α) (val : α → Bool) (bs : List Pt) : List (LEdge × LEdge × LEdge) :=
+  bs.flatMap fun b => localCells.flatMap (cellEmitTris bl val b)
+
+theorem marchedTris_pairs_aux {α : Type} (bl : Blocks α) (val : α → Bool) (bs : List Pt) :
+    marchedTris bl val bs = (visitPairs bs).flatMap fun x => cellEmitTris bl val x.1 x.2 := by
+  simp only [marchedTris, visitPairs, List.flatMap_assoc, List.flatMap_map]
+
+theorem cellEmitTris_eq_aux {α : Type} (bl : Blocks α) (val : α → Bool) (b : Pt) (l : Int × Int × Int) (hl : l ∈ localCells) :
+    cellEmitTris bl val b l = if (fetchCell bl b l.1 l.2.1 l.2.2).isSome then
+      cellTris (storedSign bl val) (globalOf b l.1 l.2.1 l.2.2) else [] := by
+  have hr := (mem_localCells_aux l).mp hl
+  unfold cellEmitTris
+  cases h : fetchCell bl b l.1 l.2.1 l.2.2 with
+  | none => simp
+  | some cs =>
+    have hb := fetched_bits_aux bl val b l.1 l.2.1 l.2.2 (by simpa [marchingSectionSize] using hr.1)
+      (by simpa [marchingSectionSize] using hr.2.1) (by simpa [marchingSectionSize] using hr.2.2) cs h
+    simp only [Option.isSome_some, if_true, cellTris, hb]
+
+theorem corner_inside_of_tris_ne_nil_aux (s : Pt → Bool) (p : Pt) (h : cellTris s p ≠ []) :
+    ∃ i, i < 8 ∧ s (padd p (cornerOff i)) = true := by
+  by_contra hc
+  apply h; apply cellTris_nil_aux
+  intro i hi
+  cases hs : s (padd p (cornerOff i)) with
+  | false => rfl
+  | true => exact absurd ⟨i, hi, hs⟩ hc
+
+theorem visited_mem_iff_tris_aux {α : Type} (bl : Blocks α) (val : α → Bool) (bs : List Pt) (o : Pt) (nx ny nz : Nat)
+    (H : MarchHyp bl val bs o nx ny nz) (p : Pt) :
+    p ∈ ((visitPairs bs).filter fun x => !(cellEmitTris bl val x.1 x.2).isEmpty).map pairCell ↔
+    p ∈ (boxCells o nx ny nz).filter fun q => !(cellTris (storedSign bl val) q).isEmpty := by
+  constructor
+  · intro hp
+    obtain ⟨x, hx, rfl⟩ := List.mem_map.mp hp
+    obtain ⟨hxV, hne⟩ := List.mem_filter.mp hx
+    obtain ⟨b, hb, hxl⟩ := List.mem_flatMap.mp hxV
+    obtain ⟨l, hl, rfl⟩ := List.mem_map.mp hxl
+    rw [cellEmitTris_eq_aux bl val b l hl] at hne
+    have hg : cellTris (storedSign bl val) (globalOf b l.1 l.2.1 l.2.2) ≠ [] := by
+      intro h0; split_ifs at hne <;> simp_all
+    obtain ⟨i, hi, hs⟩ := corner_inside_of_tris_ne_nil_aux _ _ hg
+    have hq := H.inBox _ hs
+    have ob := corner_off_bounds_aux i hi
+    refine List.mem_filter.mpr ⟨(mem_boxCells_aux _ _ _ _ _).mpr ?_, ?_⟩
+    · simp only [pairCell, padd] at hq ⊢; omega
+    · simp only [pairCell]; cases h : (cellTris (storedSign bl val) (globalOf b l.1 l.2.1 l.2.2)).isEmpty with
+      | true => exact absurd (List.isEmpty_iff.mp h) hg
+      | false => rfl
+  · intro hp
+    obtain ⟨hbox, hne⟩ := List.mem_filter.mp hp
+    have hg : cellTris (storedSign bl val) p ≠ [] := by
+      intro h0; rw [h0] at hne; simp at hne
+    obtain ⟨i, hi, hs⟩ := corner_inside_of_tris_ne_nil_aux _ _ hg
+    have ob := corner_off_bounds_aux i hi
+    obtain ⟨hl, hglob⟩ := decompose_aux p
+    -- every corner j of the cell is within one step of the inside corner i
+    have hall : ∀ j, j < 8 → (globalAt bl (padd p (cornerOff j))).isSome := by
+      intro j hj
+      have oj := corner_off_bounds_aux j hj
+      have := H.padded _ hs (padd (cornerOff j) ((-(cornerOff i).1), (-(cornerOff i).2.1), (-(cornerOff i).2.2)))
+        (by simp only [padd]; omega) (by simp only [padd]; omega) (by simp only [padd]; omega)
+        (by simp only [padd]; omega) (by simp only [padd]; omega) (by simp only [padd]; omega)
+      have heq : padd (padd p (cornerOff i)) (padd (cornerOff j) ((-(cornerOff i).1), (-(cornerOff i).2.1), (-(cornerOff i).2.2)))
+          = padd p (cornerOff j) := by
+        simp only [padd, Prod.mk.injEq]; refine ⟨?_, ?_, ?_⟩ <;> ring
+      rw [heq] at this
+      unfold globalAt; rw [Option.isSome_map]; exact this
+    have hblock : chunkOf p ∈ bs := by
+      have := H.padded _ hs ((-(cornerOff i).1), (-(cornerOff i).2.1), (-(cornerOff i).2.2))
+        (by simp only; omega) (by simp only; omega) (by simp only; omega) (by simp only; omega) (by simp only; omega)
+        (by simp only; omega)
+      have heq : padd (padd p (cornerOff i)) ((-(cornerOff i).1), (-(cornerOff i).2.1), (-(cornerOff i).2.2)) = p := by
+        obtain ⟨x, y, z⟩ := p; simp only [padd, Prod.mk.injEq]; refine ⟨?_, ?_, ?_⟩ <;> ring
+      rw [heq] at this
+      exact (H.alloc _).mp this
+    have hr := (mem_localCells_aux _).mp hl
+    have hfetch : (fetchCell bl (chunkOf p) (p.1 % 100) (p.2.1 % 100) (p.2.2 % 100)).isSome := by
+      rw [fetchCell_eq_global bl (chunkOf p) _ _ _ (by simpa [marchingSectionSize] using hr.1)
+        (by simpa [marchingSectionSize] using hr.2.1) (by simpa [marchingSectionSize] using hr.2.2), hglob]
+      obtain ⟨cs, hcs⟩ := mapM_some_aux (fun i => globalAt bl (padd p (cornerOff i))) (List.range 8)
+        (fun j hj => hall j (List.mem_range.mp hj))
+      rw [hcs]; rfl
+    refine List.mem_map.mpr ⟨(chunkOf p, (p.1 % 100, p.2.1 % 100, p.2.2 % 100)), List.mem_filter.mpr ⟨?_, ?_⟩, hglob⟩
+    · exact List.mem_flatMap.mpr ⟨chunkOf p, hblock, List.mem_map.mpr ⟨_, hl, rfl⟩⟩
+    · rw [cellEmitTris_eq_aux bl val _ _ hl]
+      simp only [hfetch, if_true, hglob]
+      exact hne
+
+/-- the triangle-list form of `marched_perm_box` -/
+theorem marched_tris_perm_box {α : Type} (bl : Blocks α) (val : α → Bool) (bs : List Pt) (o : Pt) (nx ny nz : Nat)
+    (H : MarchHyp bl val bs o nx ny nz) :
+    (marchedTris bl val bs).Perm (boxTris (storedSign bl val) o nx ny nz) := by
+  rw [marchedTris_pairs_aux, flatMap_filter_ne_nil_aux (visitPairs bs)]
+  have hcongr : (((visitPairs bs).filter fun x => !(cellEmitTris bl val x.1 x.2).isEmpty).flatMap fun x => cellEmitTris bl val x.1 x.2)
+      = (((visitPairs bs).filter fun x => !(cellEmitTris bl val x.1 x.2).isEmpty).map pairCell).flatMap
+          (cellTris (storedSign bl val)) := by
+    rw [List.flatMap_map]
+    apply List.flatMap_congr
+    intro x hx
+    obtain ⟨hxV, hne⟩ := List.mem_filter.mp hx
+    obtain ⟨b, _, hxl⟩ := List.mem_flatMap.mp hxV
+    obtain ⟨l, hl, rfl⟩ := List.mem_map.mp hxl
+    rw [cellEmitTris_eq_aux bl val b l hl] at hne ⊢
+    split_ifs at hne ⊢ with hf
+    · rfl
+    · simp at hne
+  rw [hcongr]
+  unfold boxTris
+  rw [flatMap_filter_ne_nil_aux (boxCells o nx ny nz)]
+  apply List.Perm.flatMap_right
+  rw [List.perm_ext_iff_of_nodup]
+  · exact visited_mem_iff_tris_aux bl val bs o nx ny nz H
+  · exact ((visited_nodup_aux bs H.nodup).sublist (List.Sublist.map _ List.filter_sublist))
+  · exact (boxCells_nodup_aux o nx ny nz).sublist List.filter_sublist
+
+
+/-- **Positive volume of exactly what the marcher emits** (lattice-edge ids, exact arithmetic): under `MarchHyp`, with every
+    vertex strictly inside its lattice edge, a non-empty emitted triangle list has positive signed volume -/
+theorem marched_volume_positive {α : Type} (bl : Blocks α) (val : α → Bool) (bs : List Pt) (o : Pt) (nx ny nz : Nat)
+    (H : MarchHyp bl val bs o nx ny nz) (τ : LEdge → ℝ) (hτ : ∀ l, 0 < τ l ∧ τ l < 1) (hne : marchedTris bl val bs ≠ []) :
+    0 < volume6 (posL τ) ⟨0, 0, 0⟩ (marchedTris bl val bs) := by
+  have hp := marched_tris_perm_box bl val bs o nx ny nz H
+  have hv : volume6 (posL τ) ⟨0, 0, 0⟩ (marchedTris bl val bs) = volume6 (posL τ) ⟨0, 0, 0⟩ (boxTris (storedSign bl val) o nx ny nz) := by
+    unfold volume6; exact (hp.map _).sum_eq
+  rw [hv]
+  refine march_volume_positive _ o nx ny nz (boundaryOutside_of_inBox_aux bl val bs o nx ny nz H) τ hτ ?_
+  intro h0; rw [h0] at hp; exact hne (List.Perm.eq_nil hp)
+
 end C09
 end PolyVerif
